@@ -121,6 +121,9 @@ func (e *Engine) addContractFile(file, pkgPath string) error {
 			return fmt.Errorf("%s: duplicate spec func %s", file, sf.Name)
 		}
 		e.specFuncs[sf.Name] = sf
+		if sf.Macro {
+			macroTable[sf.Name] = sf
+		}
 	}
 	for _, g := range cf.Ghosts {
 		e.ghosts[g.Name] = g
@@ -348,24 +351,30 @@ func (e *Engine) declareSpecFunc(c *Ctx, env *specEnv, sf *SpecFunc) {
 		sub.vars[p.Name] = SVal{T: Term{pn, srt}, GoT: got}
 	}
 	ret, _ := c.resolveSort(env.pkg, sf.Ret)
-	if len(sf.Params) == 0 {
-		c.decls = append(c.decls, fmt.Sprintf("(declare-const %s %s)", name, ret))
-	} else {
-		c.decls = append(c.decls, fmt.Sprintf("(declare-fun %s (%s) %s)", name, strings.Join(ss, " "), ret))
-	}
-	if sf.Body != nil {
-		// definitional axiom (works for recursive definitions as well)
+	if sf.Body != nil && !exprMentionsCall(sf.Body, sf.Name) {
+		// non-recursive definition: an SMT-level definition (define-fun), no quantified axiom
 		body := sub.eval(sf.Body)
-		app := name
-		if len(ps) > 0 {
-			var as []string
-			for _, p := range sf.Params {
-				as = append(as, quote("sp "+sf.Name+" "+p.Name))
-			}
-			app = "(" + name + " " + strings.Join(as, " ") + ")"
-			c.decls = append(c.decls, fmt.Sprintf("(assert (forall (%s) (! (= %s %s) :pattern (%s))))", strings.Join(ps, " "), app, body.T.S, app))
+		c.decls = append(c.decls, fmt.Sprintf("(define-fun %s (%s) %s %s)", name, strings.Join(ps, " "), ret, body.T.S))
+	} else {
+		if len(sf.Params) == 0 {
+			c.decls = append(c.decls, fmt.Sprintf("(declare-const %s %s)", name, ret))
 		} else {
-			c.decls = append(c.decls, fmt.Sprintf("(assert (= %s %s))", app, body.T.S))
+			c.decls = append(c.decls, fmt.Sprintf("(declare-fun %s (%s) %s)", name, strings.Join(ss, " "), ret))
+		}
+		if sf.Body != nil {
+			// definitional axiom (recursive definitions)
+			body := sub.eval(sf.Body)
+			app := name
+			if len(ps) > 0 {
+				var as []string
+				for _, p := range sf.Params {
+					as = append(as, quote("sp "+sf.Name+" "+p.Name))
+				}
+				app = "(" + name + " " + strings.Join(as, " ") + ")"
+				c.decls = append(c.decls, fmt.Sprintf("(assert (forall (%s) (! (= %s %s) :pattern (%s))))", strings.Join(ps, " "), app, body.T.S, app))
+			} else {
+				c.decls = append(c.decls, fmt.Sprintf("(assert (= %s %s))", app, body.T.S))
+			}
 		}
 	}
 	for _, ax := range sf.Axioms {
@@ -468,7 +477,7 @@ func (e *Engine) verifyFunction(key string) (res *FuncResult) {
 		c.assumed["axiom: "+ax.Text] = true
 	}
 	for _, rq := range ct.Requires {
-		c.assume(f.evalClause(env, rq))
+		f.assumeClause(env, rq, tTrue)
 		f.noteParamTypes(rq.E, env)
 	}
 	// touch the heap keys mentioned by postconditions (so that old() refers to entry constants)
